@@ -355,6 +355,7 @@ std::string render(const CaseM& c) {
 // the comparison of one group's file with the model; returns 0 or a failure (sig chosen by the caller for markup names)
 int judge_file(const CaseM& c, const GroupM& g, const std::vector<TestSim>& sims, const Cap& cap, const char* sigOverride) {
 #define JF(cond, sig, ...) do { if (!(cond)) return verif::fail(sigOverride ? sigOverride : (sig), __VA_ARGS__); } while (0)
+#define JN(cond, sig, ...) do { if (!(cond)) return verif::fail((sig), __VA_ARGS__); } while (0)   // not a consequence of unescaped attribute values
     Doc doc; std::string err;
     bool ok = parse_xml(cap.data, doc, err);
     if (!ok) {
@@ -374,11 +375,11 @@ int judge_file(const CaseM& c, const GroupM& g, const std::vector<TestSim>& sims
     a = suite->attr("name");
     JF(a && *a == g.name, "C16:suite-name", "testsuite@name is \"%s\", group is \"%s\" (%s)", a ? P(*a).c_str() : "(absent)", P(g.name).c_str(), a ? D(*a, g.name).c_str() : "");
     a = suite->attr("tests");
-    JF(a && *a == std::to_string(g.tests.size()), "C16:suite-tests", "testsuite@tests is \"%s\" for group \"%s\" with %zu tests", a ? P(*a).c_str() : "(absent)", P(g.name).c_str(), g.tests.size());
+    JN(a && *a == std::to_string(g.tests.size()), "C16:suite-tests", "testsuite@tests is \"%s\" for group \"%s\" with %zu tests", a ? P(*a).c_str() : "(absent)", P(g.name).c_str(), g.tests.size());
     a = suite->attr("failures");
-    JF(a && *a == std::to_string(nfailed), "C16:suite-failures", "testsuite@failures is \"%s\" for group \"%s\" with %zu failed tests", a ? P(*a).c_str() : "(absent)", P(g.name).c_str(), nfailed);
+    JN(a && *a == std::to_string(nfailed), "C16:suite-failures", "testsuite@failures is \"%s\" for group \"%s\" with %zu failed tests", a ? P(*a).c_str() : "(absent)", P(g.name).c_str(), nfailed);
     auto cases = suite->children("testcase");
-    JF(cases.size() == g.tests.size(), "C16:testcase-count", "%zu <testcase> elements for group \"%s\" with %zu tests", cases.size(), P(g.name).c_str(), g.tests.size());
+    JN(cases.size() == g.tests.size(), "C16:testcase-count", "%zu <testcase> elements for group \"%s\" with %zu tests", cases.size(), P(g.name).c_str(), g.tests.size());
     std::string classname = c.package.empty() ? g.name : c.package + "." + g.name;
     for (size_t i = 0; i < cases.size(); i++) {
         const Node* tc = cases[i]; const TestM& t = g.tests[i]; const TestSim& s = sims[i];
@@ -389,13 +390,13 @@ int judge_file(const CaseM& c, const GroupM& g, const std::vector<TestSim>& sims
         a = tc->attr("file");
         JF(a && *a == t.file, "C16:testcase-file", "testcase \"%s\": file \"%s\", expected \"%s\" (%s)", P(t.name).c_str(), a ? P(*a).c_str() : "(absent)", P(t.file).c_str(), a ? D(*a, t.file).c_str() : "");
         a = tc->attr("line");
-        JF(a && *a == std::to_string(t.line), "C16:testcase-line", "testcase \"%s\": line \"%s\", expected %u", P(t.name).c_str(), a ? P(*a).c_str() : "(absent)", t.line);
+        JN(a && *a == std::to_string(t.line), "C16:testcase-line", "testcase \"%s\": line \"%s\", expected %u", P(t.name).c_str(), a ? P(*a).c_str() : "(absent)", t.line);
         size_t nskip = tc->children("skipped").size();
         auto fl = tc->children("failure");
         bool wantSkip = !s.executed;
-        JF(nskip == (wantSkip ? 1u : 0u), "C16:skipped-marker", "testcase \"%s\" (%s%s): %zu <skipped> elements, expected %d", P(t.name).c_str(),
+        JN(nskip == (wantSkip ? 1u : 0u), "C16:skipped-marker", "testcase \"%s\" (%s%s): %zu <skipped> elements, expected %d", P(t.name).c_str(),
            t.ignored ? "IGNORE_TEST" : "TEST", c.runIgnored ? ", run-ignored" : "", nskip, wantSkip ? 1 : 0);
-        JF(fl.size() == (s.fails.empty() ? 0u : 1u), "C16:failure-element", "testcase \"%s\" with %zu failures: %zu <failure> elements", P(t.name).c_str(), s.fails.size(), fl.size());
+        JN(fl.size() == (s.fails.empty() ? 0u : 1u), "C16:failure-element", "testcase \"%s\" with %zu failures: %zu <failure> elements", P(t.name).c_str(), s.fails.size(), fl.size());
         if (!fl.empty()) {
             const FailM& f = s.fails[0];
             // a failure produced by a real check: the text the framework handed to the output is the original.  It contains tabs
@@ -413,7 +414,7 @@ int judge_file(const CaseM& c, const GroupM& g, const std::vector<TestSim>& sims
     auto so = suite->children("system-out");
     bool anyPrint = false;
     for (auto& s : sims) for (auto& p : s.prints) if (!p.empty()) anyPrint = true;
-    JF(so.size() == 1 || (so.empty() && !anyPrint), "C16:system-out", "%zu <system-out> elements in %s", so.size(), P(cap.name).c_str());
+    JN(so.size() == 1 || (so.empty() && !anyPrint), "C16:system-out", "%zu <system-out> elements in %s", so.size(), P(cap.name).c_str());
     if (!so.empty()) {
         const std::string& text = so[0]->text;
         size_t pos = 0;
@@ -421,13 +422,14 @@ int judge_file(const CaseM& c, const GroupM& g, const std::vector<TestSim>& sims
             for (auto& p : sims[i].prints) {
                 if (p.empty()) continue;
                 size_t at = text.find(p, pos);
-                JF(at != std::string::npos, "C16:system-out", "text \"%s\" printed by test \"%s\" of group \"%s\" does not occur (in order) in the decoded <system-out> \"%s\"",
+                JN(at != std::string::npos, "C16:system-out", "text \"%s\" printed by test \"%s\" of group \"%s\" does not occur (in order) in the decoded <system-out> \"%s\"",
                    P(p).c_str(), P(g.tests[i].name).c_str(), P(g.name).c_str(), P(text).c_str());
                 pos = at + p.size();
             }
     }
     return 0;
 #undef JF
+#undef JN
 }
 
 struct Verdict { bool nontrivial = false; };
